@@ -68,6 +68,8 @@ type World struct {
 	immut         map[string]bool
 	FactResult    map[string]factRes // pkgpath::specfn -> evaluation of a closed fact on the real code
 	immutOnce     sync.Once
+	named         map[string]types.Type
+	namedOnce     sync.Once
 }
 
 func parseModEntry(m string) *ModSpec {
